@@ -647,6 +647,15 @@ func parseCase(line string) (*wiring, []hTx, error) {
 		}
 		for no := nextInt(); no > 0; no-- {
 			op := hOp{Kind: next()}
+			if op.Kind == "G" { // guarded create / update: G <badtags> <k> (<store> <field>)*k <C|UP ...>
+				op.Guard = true
+				op.BadTags = next() == "1"
+				for k := nextInt(); k > 0; k-- {
+					next()
+					next()
+				}
+				op.Kind = next()
+			}
 			fvsv := func() {
 				op.F = map[string]*string{}
 				op.S = map[string][]string{}
@@ -683,6 +692,11 @@ func parseCase(line string) (*wiring, []hTx, error) {
 				}
 			case "D":
 				op.Store, op.Id = next(), string(unhx(next()))
+			case "DW":
+				op.Store = next()
+				if next() == "EQ" {
+					op.DwField, op.DwVal = next(), string(unhx(next()))
+				}
 			case "AL", "RL":
 				op.Store, op.Id, op.LinkF = next(), string(unhx(next())), next()
 				for k := nextInt(); k > 0; k-- {
